@@ -32,6 +32,9 @@ STRENGTHENED = {
     'C03-6': 'missed at first (no input made the pending object reach the buffer capacity with a small committed part in front and a long string behind); C03 now sweeps the size of the second object of a valid file in element steps across 1 KiB / 4 KiB / 64 KiB (node refs, members, tags) followed by a string of 300 / 1000 bytes, in OPL, XML and PBF, in all three build variants',
     'C05-6': 'missed at first (the Reader was only consumed through read(); C20 catches the same change through its own iterator sources); every 5th C05 case now consumes the Reader through InputIterator<Reader, const OSMEntity> with *it++, with a retained copy, or with pre-increment, under ASan and TSan',
     'C06-6': 'missed at first (C06 delivered empty pieces only never - the quantifier asks for non-empty chunks - and compressed inputs had a single member; C09 catches the same change); the fd part of C06 now also cuts the byte stream into 2-5 gzip members / bzip2 streams, empty ones included, and judges buffer and fd decompressor runs against the uncompressed bytes',
+    'C04-6': 'missed at first (add_buffer sources were always fully committed); every other source buffer of C04 now holds one complete but uncommitted object behind its committed ones',
+    'C09-6': 'missed at first (the compressor round trip never issued a zero-length write); half of the round trips now insert zero-length writes first, in between and last',
+    'C13-5': 'missed at first (timestamps were parsed through Timestamp(const char*) only, which does not require full consumption); C13 now also judges OSMObject::set_timestamp(const char*), the strict entry point used by the XML reader: same grammar, whole string consumed, else invalid_argument',
     'C02-1': 'missed at first (string pairs near the 250-character table limit were deliberately kept out of the files); C02 now places pairs of exactly 249/250/251/252 characters followed by references',
 }
 
